@@ -49,6 +49,7 @@ type dKind struct {
 	nilSafe   bool // ref wrapper: MarshalYAML of the Value type has a pointer receiver and starts with a nil check
 	post      []string
 	unrec     []string
+	st        *ast.StructType
 }
 
 type dPkg struct {
@@ -207,7 +208,10 @@ func classify(pkgs map[string]*dPkg, cur string, e ast.Expr, depth int) (string,
 	case *ast.InterfaceType:
 		return "iface", ".leaf"
 	case *ast.StarExpr:
-		_, sh := classify(pkgs, cur, t.X, depth+1)
+		itc, sh := classify(pkgs, cur, t.X, depth+1)
+		if itc == "slice" && sh == ".types" {
+			return "ptypes", sh // *Types: Types.MarshalYAML writes the empty list as nil, so nil and empty both mean "no type"
+		}
 		if strings.HasPrefix(sh, ".unknown") {
 			if id, ok := t.X.(*ast.Ident); ok && id.Name == "float64" {
 				return "ptr", ".leaf"
@@ -286,6 +290,8 @@ func guardClass(cond ast.Expr, v string, txt string) string {
 		return ".lenNe0"
 	case v + "!=nil":
 		return ".neNil"
+	case v + "!=nil&&len(*" + v + ")!=0":
+		return ".neNilLenNe0"
 	case v:
 		return ".isTrue"
 	case v + "!=0":
@@ -338,6 +344,23 @@ func (p *dPkg) scanMarshal(k *dKind, fd *ast.FuncDecl) {
 			if st.Init == nil && txt == "if"+recv+"==nil{returnnil,nil}" {
 				k.nilGuard = true
 				continue
+			}
+			if st.Init != nil && st.Else != nil {
+				// if x := recv.F; x != nil { m["k"] = x } else { m["k"] = T{} }   with T the declared type of F
+				init, ok := st.Init.(*ast.AssignStmt)
+				els, isBlock := st.Else.(*ast.BlockStmt)
+				if ok && isBlock && len(init.Lhs) == 1 && len(init.Rhs) == 1 && init.Tok == token.DEFINE && len(st.Body.List) == 1 && len(els.List) == 1 {
+					v := init.Lhs[0].(*ast.Ident).Name
+					f := selField(init.Rhs[0], recv)
+					key1, rhs1, ok1 := mapAssign(st.Body.List[0])
+					key2, rhs2, ok2 := mapAssign(els.List[0])
+					if f != "" && ok1 && ok2 && key1 == key2 && squash(p.text(st.Cond)) == v+"!=nil" && squash(p.text(rhs1)) == v && k.st != nil {
+						if ft := fieldType(k.st, f); ft != nil && squash(p.text(rhs2)) == squash(p.text(ft))+"{}" {
+							k.marsh = append(k.marsh, dMarsh{key1, f, ".orEmpty"})
+							continue
+						}
+					}
+				}
 			}
 			if st.Init != nil && st.Else == nil {
 				init, ok := st.Init.(*ast.AssignStmt)
@@ -588,7 +611,7 @@ func extractDescriptors(repo string) (string, error) {
 				}
 				continue
 			}
-			k := &dKind{pkg: pn, name: n, template: templateOf(st)}
+			k := &dKind{pkg: pn, name: n, template: templateOf(st), st: st}
 			k.hasYAML = ms["MarshalYAML"] != nil
 			switch k.template {
 			case "ref":
